@@ -1,6 +1,290 @@
 import OnetVerif.Model.C01
-/-! Property C01 — property theorems, negation witnesses, `_partial` variants and non-vacuity
-examples only (helper lemmas that need Mathlib go to OnetVerif/Proofs/). -/
+/-! Property C01 — protocol messages reach exactly the addressed instance, exactly once.
+Statements are for arbitrary schedules (`List Act`): unboundedly many messages, arrival threads,
+tree requests/responses, local registrations and flushes, in any interleaving. -/
 namespace C01
+
+def pre (m : Nat) (t : Th) : Bool := t.m == m && (t.pc == .lookup || t.pc == .park)
+def at_ (p : Pc) (t : Th) : Bool := t.pc == p
+
+/-- the invariant: conservation of messages plus "somebody will still flush what is parked" -/
+structure Inv (s : St) : Prop where
+  /-- every arrived message is in exactly one place: delivered, parked, or carried by a thread
+  that has not parked or delivered it yet -/
+  cons : ∀ m, s.arrived.count m = s.delivered.count m + s.parked.count m + s.thr.countP (pre m)
+  /-- a requested tree has a request in flight or about to leave -/
+  reqd : s.tree = .requested → 0 < s.reqs ∨ 0 < s.thr.countP (at_ .send)
+  /-- tree present and something parked: a flush is pending or the parking thread will re-check -/
+  pres : s.tree = .present → s.parked ≠ [] → 0 < s.flushes ∨ 0 < s.thr.countP (at_ .recheck)
+  /-- tree unknown and something parked: its thread is still on the way to request the tree -/
+  abst : s.tree = .absent → s.parked ≠ [] →
+          0 < s.thr.countP (at_ .recheck) ∨ 0 < s.thr.countP (at_ .chk) ∨ 0 < s.thr.countP (at_ .reg)
+
+theorem inv_init : Inv {} := by
+  constructor <;> simp
+
+theorem countP_map_lookup (m : Nat) (l : List Nat) :
+    (l.map (fun x => (⟨x, .lookup⟩ : Th))).countP (pre m) = l.count m := by
+  induction l with
+  | nil => simp
+  | cons x xs ih =>
+    simp only [List.map_cons, List.countP_cons, ih, List.count_cons, pre]
+    by_cases h : x = m <;> simp [h]
+
+theorem countP_map_at (p : Pc) (hp : p ≠ .lookup) (l : List Nat) :
+    (l.map (fun x => (⟨x, .lookup⟩ : Th))).countP (at_ p) = 0 := by
+  induction l with
+  | nil => simp
+  | cons x xs ih =>
+    simp only [List.map_cons, List.countP_cons, ih, at_]
+    cases p <;> simp_all
+
+theorem countP_set' {p : Th → Bool} {l : List Th} {i : Nat} {t t' : Th} (h : l[i]? = some t) :
+    (l.set i t').countP p + (if p t then 1 else 0) = l.countP p + (if p t' then 1 else 0) := by
+  have hi : i < l.length := by
+    rcases Nat.lt_or_ge i l.length with h' | h'
+    · exact h'
+    · simp [List.getElem?_eq_none h'] at h
+  have ht : l[i] = t := by simpa [List.getElem?_eq_getElem hi] using h
+  have := List.boole_getElem_le_countP (p := p) hi
+  rw [List.countP_set hi, ht] at *
+  omega
+
+/-- per-pc count bookkeeping after moving thread `i` from pc `a` to pc `b` -/
+theorem move_counts {l : List Th} {i : Nat} {m0 : Nat} {a : Pc} (h : l[i]? = some ⟨m0, a⟩) (b : Pc) :
+    let l' := l.set i ⟨m0, b⟩
+    (∀ p, l'.countP (at_ p) + (if a = p then 1 else 0) = l.countP (at_ p) + (if b = p then 1 else 0)) ∧
+    (∀ m, l'.countP (pre m) + (if pre m ⟨m0, a⟩ then 1 else 0)
+            = l.countP (pre m) + (if pre m ⟨m0, b⟩ then 1 else 0)) := by
+  refine ⟨fun p => ?_, fun m => countP_set' h⟩
+  have := countP_set' (p := at_ p) (t' := ⟨m0, b⟩) h
+  simpa [at_] using this
+
+theorem inv_thread (s : St) (i : Nat) (t : Th) (hI : Inv s) (ht : s.thr[i]? = some t)
+    (hnd : t.pc ≠ .done) : Inv (stepTh s i t) := by
+  obtain ⟨hc, hr, hp, ha⟩ := hI
+  obtain ⟨m0, pc0⟩ := t
+  simp only at hnd
+  cases pc0 with
+  | done => exact absurd rfl hnd
+  | lookup =>
+    by_cases hpr : s.tree = .present
+    · obtain ⟨f2, f1⟩ := move_counts ht .done
+      have g1 := f2 .send; have g2 := f2 .recheck; have g3 := f2 .chk; have g4 := f2 .reg
+      simp at g1 g2 g3 g4
+      simp only [stepTh, hpr, if_true]
+      refine ⟨fun m => ?_, ?_, ?_, ?_⟩
+      · have := hc m; have := f1 m
+        by_cases hm : m0 = m <;> simp_all [pre, List.count_append] <;> omega
+      all_goals (simp only [g1, g2, g3, g4]; grind)
+    · obtain ⟨f2, f1⟩ := move_counts ht .park
+      have g1 := f2 .send; have g2 := f2 .recheck; have g3 := f2 .chk; have g4 := f2 .reg
+      simp at g1 g2 g3 g4
+      simp only [stepTh, hpr, if_false]
+      refine ⟨fun m => ?_, ?_, ?_, ?_⟩
+      · have := hc m; have := f1 m
+        by_cases hm : m0 = m <;> simp_all [pre] <;> omega
+      all_goals (simp only [g1, g2, g3, g4]; grind)
+  | park =>
+    obtain ⟨f2, f1⟩ := move_counts ht .recheck
+    have g1 := f2 .send; have g2 := f2 .recheck; have g3 := f2 .chk; have g4 := f2 .reg
+    simp at g1 g2 g3 g4
+    simp only [stepTh]
+    refine ⟨fun m => ?_, ?_, ?_, ?_⟩
+    · have := hc m; have := f1 m
+      by_cases hm : m0 = m <;> simp_all [pre, List.count_append] <;> omega
+    all_goals (simp only [g1, g3, g4]; grind)
+  | recheck =>
+    by_cases hpr : s.tree = .present
+    · obtain ⟨f2, f1⟩ := move_counts ht .done
+      have g1 := f2 .send; have g2 := f2 .recheck; have g3 := f2 .chk; have g4 := f2 .reg
+      simp at g1 g2 g3 g4
+      simp only [stepTh, hpr, if_true]
+      refine ⟨fun m => ?_, ?_, ?_, ?_⟩
+      · have := hc m; have := f1 m; simp_all [pre]
+      all_goals (simp only [g1, g3, g4]; grind)
+    · obtain ⟨f2, f1⟩ := move_counts ht .chk
+      have g1 := f2 .send; have g2 := f2 .recheck; have g3 := f2 .chk; have g4 := f2 .reg
+      simp at g1 g2 g3 g4
+      simp only [stepTh, hpr, if_false]
+      refine ⟨fun m => ?_, ?_, ?_, ?_⟩
+      · have := hc m; have := f1 m; simp_all [pre]
+      all_goals (simp only [g1, g4]; grind)
+  | chk =>
+    by_cases hab : s.tree = .absent
+    · obtain ⟨f2, f1⟩ := move_counts ht .reg
+      have g1 := f2 .send; have g2 := f2 .recheck; have g3 := f2 .chk; have g4 := f2 .reg
+      simp at g1 g2 g3 g4
+      simp only [stepTh, hab, if_true]
+      refine ⟨fun m => ?_, ?_, ?_, ?_⟩
+      · have := hc m; have := f1 m; simp_all [pre]
+      all_goals (simp only [g1, g2]; grind)
+    · obtain ⟨f2, f1⟩ := move_counts ht .done
+      have g1 := f2 .send; have g2 := f2 .recheck; have g3 := f2 .chk; have g4 := f2 .reg
+      simp at g1 g2 g3 g4
+      simp only [stepTh, hab, if_false]
+      refine ⟨fun m => ?_, ?_, ?_, ?_⟩
+      · have := hc m; have := f1 m; simp_all [pre]
+      all_goals (simp only [g1, g2, g4]; grind)
+  | reg =>
+    obtain ⟨f2, f1⟩ := move_counts ht .send
+    have g1 := f2 .send; have g2 := f2 .recheck; have g3 := f2 .chk; have g4 := f2 .reg
+    simp at g1 g2 g3 g4
+    simp only [stepTh]
+    refine ⟨fun m => ?_, ?_, ?_, ?_⟩
+    · have := hc m; have := f1 m; simp_all [pre]
+    all_goals (simp only [g2, g3]; cases hts : s.tree <;> grind)
+  | send =>
+    obtain ⟨f2, f1⟩ := move_counts ht .done
+    have g1 := f2 .send; have g2 := f2 .recheck; have g3 := f2 .chk; have g4 := f2 .reg
+    simp at g1 g2 g3 g4
+    simp only [stepTh]
+    refine ⟨fun m => ?_, ?_, ?_, ?_⟩
+    · have := hc m; have := f1 m; simp_all [pre]
+    all_goals (simp only [g2, g3, g4]; cases hts : s.tree <;> grind)
+
+theorem inv_step (s s' : St) (a : Act) (hI : Inv s) (hs : step s a = some s') : Inv s' := by
+  cases a with
+  | thread i =>
+    simp only [step] at hs
+    split at hs
+    · rename_i t ht
+      split at hs
+      · simp at hs
+      · simp at hs; subst hs; exact inv_thread s i t hI ht ‹_›
+    · simp at hs
+  | arrive m =>
+    simp [step] at hs; subst hs
+    obtain ⟨hc, hr, hp, ha⟩ := hI
+    refine ⟨fun m' => ?_, ?_, ?_, ?_⟩
+    · have := hc m'
+      by_cases hm : m = m' <;> simp_all [pre, List.count_append] <;> omega
+    all_goals (simp [at_] at *; grind)
+  | respond =>
+    obtain ⟨hc, hr, hp, ha⟩ := hI
+    simp only [step] at hs
+    split at hs
+    · simp at hs
+    · split at hs
+      · simp at hs; subst hs
+        refine ⟨hc, ?_, ?_, ?_⟩ <;> grind
+      · simp at hs; subst hs
+        refine ⟨hc, ?_, ?_, ?_⟩ <;> grind
+  | localSet =>
+    obtain ⟨hc, hr, hp, ha⟩ := hI
+    simp [step] at hs; subst hs
+    refine ⟨hc, ?_, ?_, ?_⟩ <;> grind
+  | flush =>
+    obtain ⟨hc, hr, hp, ha⟩ := hI
+    simp only [step] at hs
+    split at hs
+    · simp at hs
+    · simp at hs; subst hs
+      have e1 := countP_map_at .send (by decide) s.parked
+      have e2 := countP_map_at .recheck (by decide) s.parked
+      refine ⟨fun m => ?_, ?_, ?_, ?_⟩
+      · have := hc m; have := countP_map_lookup m s.parked
+        simp only [List.countP_append, List.count_nil]; omega
+      all_goals (simp only [List.countP_append, e1, e2]; grind)
+
+theorem inv_run (as : List Act) (s : St) (h : Inv s) : Inv (run s as) := by
+  induction as generalizing s with
+  | nil => exact h
+  | cons a as ih =>
+    simp only [run]
+    split
+    · exact ih _ (inv_step _ _ _ h ‹_›)
+    · exact ih _ h
+
+/-- **conservation** (never duplicated, never dropped): under every schedule, at every moment,
+each arrived message is in exactly one place — handed to its instance, parked, or still carried by
+its arrival thread. -/
+theorem c01_conservation (as : List Act) (m : Nat) :
+    let s := run {} as
+    s.arrived.count m = s.delivered.count m + s.parked.count m + s.thr.countP (pre m) :=
+  (inv_run as {} inv_init).cons m
+
+/-- nothing can move any more: no flush pending, no request unanswered, every thread finished -/
+def Quiescent (s : St) : Prop :=
+  s.flushes = 0 ∧ s.reqs = 0 ∧ ∀ t ∈ s.thr, t.pc = .done
+
+instance (s : St) : Decidable (Quiescent s) := by unfold Quiescent; infer_instance
+
+/-- **exactly once**: for every schedule, once nothing can move, nothing is parked and every
+arrived message has been handed over exactly as often as it arrived — whether or not the server
+knew the tree before, however arrivals, the request, the response, local registrations and
+flushes interleave. -/
+theorem c01_quiescent_exactly_once (as : List Act) (hq : Quiescent (run {} as)) :
+    (run {} as).parked = [] ∧ ∀ m, (run {} as).delivered.count m = (run {} as).arrived.count m := by
+  have hI := inv_run as {} inv_init
+  generalize run {} as = s at *
+  obtain ⟨hf, hr, ht⟩ := hq
+  have hz : ∀ p, p ≠ Pc.done → s.thr.countP (at_ p) = 0 := by
+    intro p hp
+    rw [List.countP_eq_zero]
+    intro t htm
+    have := ht t htm
+    simp [at_, this]; exact fun h => hp h.symm
+  have hpre : ∀ m, s.thr.countP (pre m) = 0 := by
+    intro m
+    rw [List.countP_eq_zero]
+    intro t htm
+    have := ht t htm
+    simp [pre, this]
+  have hp : s.parked = [] := by
+    apply Classical.byContradiction; intro hne
+    have h1 := hz .chk (by decide); have h2 := hz .reg (by decide)
+    have h3 := hz .send (by decide); have h4 := hz .recheck (by decide)
+    cases hts : s.tree with
+    | absent => have := hI.abst hts hne; omega
+    | requested => have := hI.reqd hts; omega
+    | present => have := hI.pres hts hne; omega
+  refine ⟨hp, fun m => ?_⟩
+  have := hI.cons m
+  rw [hp, hpre m] at this
+  simp at this; omega
+
+/-- **no stranding**: whenever something is parked, some action is still enabled that leads to a
+flush (a pending flush, an unanswered request, or a thread that has not finished). -/
+theorem c01_no_strand (as : List Act) (h : (run {} as).parked ≠ []) : ¬ Quiescent (run {} as) :=
+  fun hq => h (c01_quiescent_exactly_once as hq).1
+
+/-! ### the unrepaired code (pinned commit) strands a message
+
+`stepThOld` is the thread step without the re-check.  Schedule: the message's thread looks the
+tree up (unknown) — a local registration stores the tree and its flush runs (nothing parked yet) —
+the thread parks the message and then finds the tree registered: it is done, nothing can move any
+more, and the message stays parked for ever.  Reproduced on the real code before the repair
+(`notes/probes/onet_overlay_c01_c02_c11_probe_test.go.txt`) and kept as a corpus schedule. -/
+def stepOld (s : St) : Act → Option St
+  | .thread i =>
+      match s.thr[i]? with
+      | some t => if t.pc = .done then none else some (stepThOld s i t)
+      | none => none
+  | a => step s a
+
+def runOld (s : St) : List Act → St
+  | [] => s
+  | a :: as => match stepOld s a with
+      | some s' => runOld s' as
+      | none => runOld s as
+
+def strandSchedule : List Act := [.arrive 7, .thread 0, .localSet, .flush, .thread 0, .thread 0]
+
+theorem c01_old_code_strands :
+    let s := runOld {} strandSchedule
+    s.parked = [7] ∧ s.delivered = [] ∧ s.flushes = 0 ∧ s.reqs = 0 ∧ s.thr.all (fun t => t.pc == .done) := by
+  decide
+
+/-- the same schedule on the repaired model delivers the message -/
+example : (run {} (strandSchedule ++ [.thread 0, .flush, .thread 1])).delivered = [7] ∧
+    (run {} (strandSchedule ++ [.thread 0, .flush, .thread 1])).parked = [] := by decide
+
+/-! ### non-vacuity: a quiescent run with a request/response round -/
+example : Quiescent (run {} [.arrive 1, .arrive 2, .thread 0, .thread 1, .thread 0, .thread 0, .thread 0, .thread 0,
+      .thread 0, .thread 1, .thread 1, .thread 1, .respond, .flush, .thread 2, .thread 3]) ∧
+    (run {} [.arrive 1, .arrive 2, .thread 0, .thread 1, .thread 0, .thread 0, .thread 0, .thread 0,
+      .thread 0, .thread 1, .thread 1, .thread 1, .respond, .flush, .thread 2, .thread 3]).delivered = [1, 2] := by
+  decide
 
 end C01
